@@ -5,7 +5,7 @@ Bounded exhaustive enumeration (E2):
             written that way), for each of the four properties, through Material(...) and through the functional
             setter; all forms must store the same 9-tuple, and the isotropy / diagonality / magnetic / conductive
             predicates must agree with an independent reading of that tensor.
-  order     all dictionaries of <= 4 (quick: <= 3) materials from a 7-material menu in all insertion orders: every
+  order     all dictionaries of <= 4 (quick: <= 3) materials from an 8-material menu in all insertion orders: every
             per-property list, the name list, the material list and the dispersive-coefficient table use one common
             order, which is ascending in the documented key.
   complex   Material.from_complex_permittivity / from_refractive_index / from_loss_tangent over value forms x reference
@@ -412,8 +412,12 @@ def _part_complex(case):
 
 
 def run_case(case):
+    import warnings
+
     fn = {"norm": _part_norm, "order": _part_order, "complex": _part_complex}[case["part"]]
-    fails, evals, nontriv, oc = fn(case)
+    with warnings.catch_warnings():
+        warnings.simplefilter("ignore")  # e.g. the library's own warning about non-positive static permittivities
+        fails, evals, nontriv, oc = fn(case)
     seen, out = {}, []
     for f in fails:
         seen[f["sig"]] = seen.get(f["sig"], 0) + 1
